@@ -216,6 +216,11 @@ func (e StdEng) Dot(x, y Tensor, opts ...FuncOpt) (retVal Tensor, err error) {
 			}
 			return New(FromScalar(ret)), nil
 		case b.IsMatrix():
+			// y is an operand: lazily transpose a shallow clone, never y itself (which would be
+			// visible to concurrent readers, and undone wrongly if y was already transposed)
+			if bd, ok := b.(*Dense); ok {
+				b = bd.ShallowClone()
+			}
 			b.T()
 			defer b.UT()
 			switch {
